@@ -9,6 +9,6 @@ proof fn sentinel_v9_prelude_consistent()
     ax_known_reasons();
     broadcast use ax_constant_header_values_ok, ax_input_path_is_the_string;
 }
-proof fn sentinel_handler_may_run_not_trivial<C: ServerContext>(handler: Arc<dyn RouteHandler<C>>, rqctx: RequestContext<C>, request: Request<Body>)
-    ensures handler_may_run(handler, rqctx, request)
+proof fn sentinel_handler_may_run_not_trivial<C: ServerContext>(handler: Arc<dyn RouteHandler<C>>, rqctx: RequestContext<C>, request: Request<Body>, a: SocketAddr)
+    ensures handler_may_run(handler, rqctx, request, a)
 {}
